@@ -12,7 +12,7 @@ import UF.Gen.Facts
       SRV, nil otherwise;
   * the numeric fields are `uint16`.
 -/
-namespace UF
+namespace UF.H
 open Bytes
 
 def isU16 (n : Nat) : Bool := decide (n ≤ 65535)
@@ -44,4 +44,4 @@ def shapeOK (rw : DnsRewrite) : Bool :=
   else
     isU16 rw.rrType && valueShapeOK rw.rrType rw.value
 
-end UF
+end UF.H
